@@ -97,7 +97,14 @@ def oracle_with_model(lines, trace, mtrace):
         if m and int(m.group(1)) > 0 and int(m.group(2)) == 0:
             parked = True
     plain = [l for l in mtrace if not l.startswith("Z ") and not re.match(r"^L t=-?\d+ 8 ", l)]
+    # the writer closed while segments were still awaiting retransmission AND the transfer was moving (bytes in
+    # flight): close() discards them, the reader cannot get the rest.  The property speaks of connections whose
+    # two sockets stay open; a script whose fixed grace period before the close was too short for a very slow
+    # route (one-segment queues, long latency: one segment per round trip) is not a stall.
+    closed_midway = any(int(d[4]) > 0 and int(d[5]) > 0 for d in diag)
     for sig, msg in fails:
+        if sig == "c06/stall" and "the writer closed" in msg and closed_midway and plain == trace:
+            continue
         if sig == "c06/stall" and parked and plain == trace:
             out.append(("c06/stall/parked-nothing-in-flight", msg + " [model: a dropped segment waited for an ACK that could not come]"))
         else:
